@@ -110,6 +110,10 @@ func (c refCfg) line() string {
 	return fmt.Sprintf("refs tasks=%s watch=%s pipes=%s", strings.Join(c.tasks, ","), w, strings.Join(ps, "|"))
 }
 
+// forcePipes > 0 fixes the number of pipelines (every run has configurations with exactly one pipeline and with
+// four, whatever the seed makes of the others)
+var forcePipes int
+
 func genValid(rng *rand.Rand) refCfg {
 	c := refCfg{pipelines: map[string][]refStage{}, watchers: map[string]string{}}
 	nt := 2 + rng.Intn(3)
@@ -117,6 +121,9 @@ func genValid(rng *rand.Rand) refCfg {
 		c.tasks = append(c.tasks, fmt.Sprintf("t%d", i))
 	}
 	np := 1 + rng.Intn(4)
+	if forcePipes > 0 {
+		np = forcePipes
+	}
 	for i := 0; i < np; i++ {
 		c.porder = append(c.porder, fmt.Sprintf("p%d", i))
 	}
@@ -447,8 +454,34 @@ func runC18(col *Collector, tier string, seed int64) {
 	}
 	var cases []refCfg
 	var tags []string
+	// a pipeline reached twice in one walk of the inclusion structure is not a cycle: included by two stages of one
+	// pipeline, and shared by two pipelines that a third includes (each with task stages around the inclusions)
+	for v := 0; v < 4; v++ {
+		c := refCfg{tasks: []string{"t0", "t1"}, pipelines: map[string][]refStage{}, watchers: map[string]string{}}
+		c.porder = []string{"top", "left", "right", "shared"}
+		c.pipelines["shared"] = []refStage{{name: "a", task: "t0"}, {name: "b", task: "t1", deps: []string{"a"}}}
+		c.pipelines["left"] = []refStage{{name: "pre", task: "t0"}, {name: "inc", pipeline: "shared", deps: []string{"pre"}}}
+		c.pipelines["right"] = []refStage{{name: "inc", pipeline: "shared"}, {name: "post", task: "t1", deps: []string{"inc"}}}
+		switch v {
+		case 0:
+			c.pipelines["top"] = []refStage{{name: "l", pipeline: "left"}, {name: "r", pipeline: "right"}}
+		case 1:
+			c.pipelines["top"] = []refStage{{name: "first", pipeline: "shared"}, {name: "mid", task: "t0", deps: []string{"first"}}, {name: "again", pipeline: "shared", deps: []string{"mid"}}}
+		case 2:
+			c.pipelines["top"] = []refStage{{name: "l", pipeline: "left"}, {name: "r", pipeline: "right", deps: []string{"l"}}, {name: "s", pipeline: "shared", deps: []string{"r"}}}
+		case 3:
+			c.porder = []string{"shared", "right", "left", "top"}
+			c.pipelines["top"] = []refStage{{name: "r", pipeline: "right"}, {name: "l", pipeline: "left"}, {name: "t", task: "t1", deps: []string{"l", "r"}}}
+		}
+		for rep := 0; rep < 3; rep++ {
+			cases = append(cases, c)
+			tags = append(tags, "valid-shared-inclusion")
+		}
+	}
 	for i := 0; i < nbase; i++ {
+		forcePipes = map[int]int{0: 1, 1: 4, 2: 2}[i] // the first three: one pipeline, four, two; then as drawn
 		c := genValid(rng)
+		forcePipes = 0
 		cases = append(cases, c)
 		tags = append(tags, "valid")
 		for _, m := range mutations(c, rng) {
